@@ -40,6 +40,9 @@ type scanSpec struct {
 	// EmptyFirst allows a zero-cell partial result BEFORE the first fragment of a row (and as the
 	// very first result of a scan): structurally valid, carries nothing.
 	EmptyFirst bool `json:"empty_first,omitempty"`
+	// UnaskedMetrics: every response carries scan metrics although the scan did not ask for them
+	// (a field the client did not expect in a well-formed message).
+	UnaskedMetrics bool `json:"unasked_metrics,omitempty"`
 	// Twice runs the same scan a second time against the same cached region objects
 	// (a scan must not leave anything behind that changes the next one).
 	Twice bool `json:"twice,omitempty"`
@@ -342,6 +345,11 @@ func (m *scanModel) SendRPC(rpc hrpc.Call) (proto.Message, error) {
 		m.multiRegion = true
 	}
 	resp := m.respond(sc, req)
+	if m.spec.UnaskedMetrics && !req.GetTrackScanMetrics() {
+		resp.ScanMetrics = &pb.ScanMetrics{Metrics: []*pb.NameInt64Pair{
+			{Name: proto.String("ROWS_SCANNED"), Value: proto.Int64(int64(len(resp.Results)))},
+			{Name: proto.String("ROWS_FILTERED"), Value: proto.Int64(0)}}}
+	}
 	if req.GetCloseScanner() {
 		sc.closed = true
 		sc.releasedAt = time.Now()
